@@ -85,10 +85,24 @@ def main():
         test_pkgs = pkgs or sorted(set("./" + os.path.dirname(t) for t in touched))
         rc2, out2 = sh([GO, "test", "-count=1"] + test_pkgs, cwd=wt, timeout=3000)
         fails = re.findall(r"^--- FAIL: (\S+)", out2, re.M)
-        # fails on the unchanged tree: always (first) / intermittently under machine load, fixed ports and real-time
-        # assumptions (the others; observed on the unmodified tree by several independent runs)
-        known_bad = {"TestDialWorkerLoopTCPConnUpgradeWait", "TestDialBackoff", "TestDialWorkerLoopQuicOverTCP", "TestDialWorkerLoopSchedulingProperty"}
-        fails = [f for f in fails if f not in known_bad]
+        # BASELINE.json: always_fail / flaky on the unchanged tree. Anything else that fails is re-run alone twice:
+        # fixed ports and real-time assumptions make some swarm tests collide with other test runs on this machine.
+        try:
+            b = json.load(open("/root/.vp/BASELINE.json"))
+            known_bad = set(x.split("::")[-1] for x in b.get("always_fail", []) + b.get("flaky", []))
+        except Exception:
+            known_bad = {"TestDialWorkerLoopTCPConnUpgradeWait", "TestDialBackoff"}
+        fails = [f for f in fails if f.split("/")[0] not in known_bad]
+        still = []
+        for f in sorted(set(x.split("/")[0] for x in fails)):
+            bad = 0
+            for _ in range(2):
+                rcx, outx = sh([GO, "test", "-count=1", "-run", "^%s$" % f] + test_pkgs, cwd=wt, timeout=1200)
+                if re.search(r"^--- FAIL", outx, re.M):
+                    bad += 1
+            if bad == 2:
+                still.append(f)
+        fails = still
         result["existing_tests"] = {"packages": test_pkgs, "result": "pass" if not fails and ("FAIL" not in out2 or not fails) else "FAIL", "failed": fails}
         ok = rc0 == 0 and rc1 != 0 and not fails
         result["confirmed"] = ok
